@@ -89,6 +89,10 @@ type Exec struct {
 	goalValid  map[*Term]bool
 	heapClasses map[string]*heapClass
 	forceInline map[string]bool
+	recursing   *recursion
+	cancelL     *Loc
+	cancelModel bool
+	targetPkg   string
 }
 
 func NewExec(prog *Prog, ts *TermStore) *Exec {
